@@ -32,10 +32,12 @@ if os.path.exists('seeded/MATRIX.txt'):
         if parts:
             matrix[parts[0]] = {x.split(':')[0]: int(x.split(':')[1]) for x in parts[1:]}
 # confirmed breaking changes that no check reports (see DESIGN.md 14.3): kept, with no expectation, so that the record is honest
-NOT_DETECTED = {'seeded/C15-r3-change1/patch.diff': 'needs std::bad_alloc between two allocations: exceptions from allocation failure are not modelled'}
+NOT_DETECTED = {'seeded/C15-r3-change1/patch.diff': 'needs std::bad_alloc between two allocations: exceptions from allocation failure are not modelled',
+                'seeded/C17-r6-change2/patch.diff': 'size_t wrap inside the diagnostic printer strlog, which the analyses stub (output formatting is not analysed)'}
 # confirmed breaking changes on which the own check gives up (exit 2: neither a pass nor a violation), see DESIGN.md 14.5
 DECLINED = {'seeded/C09-r5-change1/patch.diff': ('C09', 'the zero-byte mask is a 32-bit subtraction over packed bytes: outside the byte-term language, R09.e/R09.d undecided'),
-            'seeded/C09-r5-change2/patch.diff': ('C09', 'memcmp on block bytes against a cache member: outside the term language; R09.m names the member and stays undecided')}
+            'seeded/C09-r5-change2/patch.diff': ('C09', 'memcmp on block bytes against a cache member: outside the term language; R09.m names the member and stays undecided'),
+            'seeded/C03-r6-change1/patch.diff': ('C03', 'the thread entry is a lambda: the spawn analysis finds no function entry (lambda captures are not in the facts)')}
 json.dump({'not_detected': NOT_DETECTED, 'declined_exit_2': {k: {'property': v[0], 'why': v[1]} for k, v in DECLINED.items()}},
           open('seeded/NOT_DETECTED.json', 'w'), indent=1)
 for d in sorted(glob.glob('seeded/*/patch.diff')):
